@@ -460,6 +460,50 @@ fn locator_siblings(cx: &mut Ctx, loc: &Src) {
     } else {
         cx.fail(rule, &format!("{}/types", rule), &loc.rel, "the locators' associated types differ");
     }
+    // locate_only reports the row of the line the offset lies on: interpreted for both outcomes of locate_inner
+    if let Ok(sc) = sm::load(&cx_repo(), "core/src/source_code.rs") {
+        if let Some(m) = sc.method("LinearLocator", "locate_only") {
+            use crate::eval::{Machine, V};
+            let mut bad = vec![];
+            for moved in [false, true] {
+                let methods = |recv: &V, name: &str, _a: &[V]| -> Option<V> {
+                    match (recv, name) {
+                        (V::Enum(r), "locate_inner") if r == "self" => {
+                            let new_state = if moved {
+                                let mut rec = BTreeMap::new();
+                                rec.insert("line_number".to_string(), V::Enum("row of the offset's line".into()));
+                                V::Opt(Some(Box::new(V::Rec(rec))))
+                            } else {
+                                V::Opt(None)
+                            };
+                            Some(V::Tuple(vec![V::Enum("column".into()), new_state]))
+                        }
+                        _ => None,
+                    }
+                };
+                let mut mach = Machine::new(&methods);
+                let mut cur = BTreeMap::new();
+                cur.insert("line_number".to_string(), V::Enum("row of the cursor's line".into()));
+                mach.set("self.state", V::Rec(cur));
+                mach.set("offset", V::Enum("offset".into()));
+                let want_row = if moved { "row of the offset's line" } else { "row of the cursor's line" };
+                match mach.eval_fn_body(&m.block) {
+                    Ok(V::Rec(r)) => {
+                        if r.get("row") != Some(&V::Enum(want_row.into())) || r.get("column") != Some(&V::Enum("column".into())) {
+                            bad.push(format!("offset on {} line: result {}", if moved { "a later" } else { "the cursor's" }, crate::eval::show_term(&V::Rec(r))));
+                        }
+                    }
+                    Ok(o) => bad.push(format!("result {}", crate::eval::show_term(&o))),
+                    Err(e) => bad.push(format!("not interpretable ({})", e)),
+                }
+            }
+            if bad.is_empty() {
+                cx.ok(rule, "locate_only: row of the line the offset lies on (the new state's when the offset is beyond the cursor's line), column as computed");
+            } else {
+                cx.fail(rule, &format!("{}/locate_only/row", rule), &sc.loc(m), &format!("locate_only does not report (row of the offset's line, column): {}", bad.join("; ")));
+            }
+        }
+    }
     // locate_only does not move the cursor: body has no assignment to self.state
     if let Ok(sc) = sm::load(&cx_repo(), "core/src/source_code.rs") {
         if let Some(m) = sc.method("LinearLocator", "locate_only") {
